@@ -31,7 +31,8 @@ CONSTANTS NB,        \* bars are 1..NB (bar b is created by the b-th Add in prog
           Q,         \* heap manager queue length (WithQueueLen)
           Pop,       \* PopCompletedMode
           Prog,      \* Prog[c] = sequence of calls of client c
-          MaxTicks   \* refresh periods the scheduler may let pass (bounds the graph)
+          MaxTicks,  \* refresh periods the scheduler may let pass (bounds the graph)
+          Fault      \* [b, at]: the at-th Fill of bar b returns an error (at = 0: never)
 
 Bars    == 1..NB
 Clients == DOMAIN Prog
@@ -43,17 +44,19 @@ VARIABLES s,      \* the whole system, as one record (see Init)
 vars == <<s, last>>
 view == s      \* the label of the last step is output only
 
-Req(cmd, b, sy, e) == [cmd |-> cmd, b |-> b, sync |-> sy, e |-> e]
+Req(cmd, b, sy, e) == [cmd |-> cmd, b |-> b, sync |-> sy, e |-> e, v |-> 0]
 NoReq == Req("none", NoBar, FALSE, 0)
 
 BarInit == [exists |-> FALSE, total |-> 0, cur |-> 0, trig |-> FALSE, aborted |-> FALSE, rm |-> FALSE, nopop |-> FALSE,
             sync |-> FALSE, after |-> NoBar, shutdown |-> 0, ctx |-> FALSE, pc |-> "none", prio |-> 0,
-            rg |-> "none", rd |-> "none", host |-> "none", frame |-> [has |-> FALSE, sd |-> 0, rm |-> FALSE, nopop |-> FALSE],
-            index |-> 0]
+            rg |-> "none", rd |-> "none", host |-> "none",
+            frame |-> [has |-> FALSE, sd |-> 0, rm |-> FALSE, nopop |-> FALSE, err |-> FALSE],
+            index |-> 0, fills |-> 0, pushed |-> FALSE]
 
 CtInit == [pc |-> "idle", b |-> NoBar, cmd |-> "none", sync |-> FALSE, then |-> "none", c |-> 0, e |-> 0,
-           final |-> FALSE, rows |-> <<>>, popc |-> 0,
-           iterClosed |-> FALSE, popClosed |-> FALSE]      \* close(iter) / close(iterPop) seen by the next receive
+           final |-> FALSE, rows |-> <<>>, prios |-> <<>>, exempt |-> FALSE, popc |-> 0,
+           iterClosed |-> FALSE, popClosed |-> FALSE,
+           v |-> 0, lazy |-> FALSE]                         \* arguments of a pending priority change      \* close(iter) / close(iterPop) seen by the next receive
 
 Init0 ==
   [cl    |-> [c \in Clients |-> [pc |-> 1, st |-> IF Len(Prog[c]) = 0 THEN "done" ELSE "gate", res |-> "none"]],
@@ -73,8 +76,11 @@ Init0 ==
    ls    |-> "idle",
    lsPend |-> FALSE,           \* the ticker's one-slot channel holds a tick the listener has not taken yet
    pctx  |-> FALSE, done |-> FALSE,
+   iterDrop |-> FALSE,         \* closed by the container on a render error
+   lazyDirty |-> FALSE,        \* a lazy priority change has been applied since the last ordered iteration began
+   err   |-> FALSE, drain |-> "none", debug |-> 0,
    cw    |-> 0,                \* text lines accepted and not yet written
-   out   |-> [rows |-> <<>>, text |-> 0, pop |-> 0],   \* last frame written (observation)
+   out   |-> [rows |-> <<>>, prios |-> <<>>, exempt |-> FALSE, text |-> 0, pop |-> 0],   \* last frame written (observation)
    written |-> 0,              \* text lines written so far
    accepted |-> 0,
    bwg   |-> 0, ctgone |-> FALSE,
@@ -103,6 +109,8 @@ Down(st, h, i, n) ==   \* n = number of elements that take part
   ELSE LET j == IF j1 + 1 <= n /\ Less(st, h[j1 + 1], h[j1]) THEN j1 + 1 ELSE j1 IN
        IF ~Less(st, h[j], h[i]) THEN h ELSE Down(st, Swap(h, i, j), j, n)
 HeapPush(st, h, b) == Up(st, Append(h, b), Len(h) + 1)
+HeapFix(st, h, i) == LET d == Down(st, h, i, Len(h)) IN IF d # h THEN d ELSE Up(st, h, i)
+PosIn(h, b) == IF \E i \in DOMAIN h : h[i] = b THEN CHOOSE i \in DOMAIN h : h[i] = b ELSE 0
 HeapPopBar(h) == h[1]                      \* the element Pop returns (after the swap it is the last one)
 HeapPopRest(st, h) == LET n == Len(h) IN
                       IF n = 1 THEN <<>> ELSE SubSeq(Down(st, Swap(h, 1, n), 1, n - 1), 1, n - 1)
@@ -138,6 +146,8 @@ CtLabels(st) ==
     [] st.ct.pc = "cancel_gate" -> {<<"ct:cancelbar", st.ct.b, 0>>}
     [] st.ct.pc = "flush_gate"  -> {<<"ct:flush", 0, 0>>}
     [] st.ct.pc = "io_gate"     -> {<<"ct:io", 0, 0>>}
+    [] st.ct.pc = "drop_gate"   -> {<<"ct:drop", 0, 0>>}
+    [] st.ct.pc = "pcancel_gate" -> {<<"ct:pcancel", 0, 0>>}
     [] OTHER -> {}
 HmLabels(st) ==
   CASE st.hm.pc = "req_gate"  -> {<<"hm:req:" \o (IF st.hm.req.cmd = "itertrav" THEN "iter" ELSE st.hm.req.cmd),
@@ -162,6 +172,8 @@ Release(st, g) ==
     [] g[1] = "ct:cancelbar" -> [st EXCEPT !.ct.pc = "cancel_do"]
     [] g[1] = "ct:flush"  -> [st EXCEPT !.ct.pc = "flush_do"]
     [] g[1] = "ct:io"     -> [st EXCEPT !.ct.pc = "io_do"]
+    [] g[1] = "ct:drop"   -> [st EXCEPT !.ct.pc = "drop_do"]
+    [] g[1] = "ct:pcancel" -> [st EXCEPT !.ct.pc = "pcancel_do"]
     [] g[1] \in {"hm:req:push", "hm:req:sync", "hm:req:iter", "hm:req:state", "hm:req:end", "hm:req:fix"} -> [st EXCEPT !.hm.pc = "req_do"]
     [] g[1] = "hm:iter"   -> [st EXCEPT !.hm.pc = "iter_do"]
     [] g[1] = "hm:pop"    -> [st EXCEPT !.hm.pc = "pop_do"]
@@ -213,7 +225,7 @@ MicroClient(st, c) ==
   LET C == st.cl[c] IN
   IF C.st = "do" THEN
      LET op == Op(c, st) IN
-     CASE op.op = "add"   -> {[st EXCEPT !.cl[c].st = "sendct"]}
+     CASE op.op \in {"add", "prio"} -> {[st EXCEPT !.cl[c].st = "sendct"]}
        [] op.op = "write" -> {[st EXCEPT !.cl[c].st = "sendio"]}
        [] op.op \in {"incr", "abort"} ->
             IF st.bar[op.b].exists THEN {[st EXCEPT !.cl[c].st = "sendbar"]} ELSE {Return(st, c)}
@@ -253,7 +265,7 @@ MicroHm(st) ==
   IF H.pc = "req_do" THEN
      CASE r.cmd = "push" ->
             {HmNext([st EXCEPT !.heap = HeapPush(st, st.heap, r.b), !.hsync = @ \/ r.sync,
-                               !.bar[r.b].index = 1])}
+                               !.bar[r.b].index = 1, !.bar[r.b].pushed = TRUE])}
        [] r.cmd = "sync" ->
             IF st.hsync \/ st.hlen # Len(st.heap)
             THEN {[st EXCEPT !.hm.pc = "sync_table", !.hm.i = 1, !.hm.order = st.heap, !.matrix = <<>>]}
@@ -261,9 +273,16 @@ MicroHm(st) ==
                          THEN [st EXCEPT !.dist = AddSlot(@, [members |-> st.matrix, i |-> 1, pc |-> "gate"])] ELSE st)}
        [] r.cmd \in {"iter", "itertrav"} ->
             IF st.heap = <<>> THEN
-               IF r.cmd = "iter" THEN {[st EXCEPT !.hm.pc = "pop_loop", !.ct.iterClosed = TRUE]}
+               IF r.cmd = "iter" THEN {[st EXCEPT !.hm.pc = "pop_loop", !.ct.iterClosed = TRUE, !.ct.exempt = st.lazyDirty, !.lazyDirty = FALSE]}
                ELSE {HmNext([st EXCEPT !.er[r.e].closed = TRUE])}
             ELSE {[st EXCEPT !.hm.pc = "iter_gate", !.hm.i = 1, !.hm.order = st.heap, !.hm.e = r.e]}
+       [] r.cmd = "fix" ->
+            \* index < 0 (popped, not pushed back yet): ignored; index 0 for a bar never pushed (queued): position 0 is fixed
+            LET pos == PosIn(st.heap, r.b) IN
+            IF pos = 0 /\ st.bar[r.b].pushed THEN {HmNext(st)}
+            ELSE LET st1 == [st EXCEPT !.bar[r.b].prio = r.v] IN
+                 IF r.sync \/ st.heap = <<>> THEN {HmNext([st1 EXCEPT !.lazyDirty = @ \/ r.sync])}
+                 ELSE {HmNext([st1 EXCEPT !.heap = HeapFix(st1, st.heap, IF pos = 0 THEN 1 ELSE pos)])}
        [] r.cmd = "state" -> {[st EXCEPT !.hm.pc = "state_send"]}
        [] r.cmd = "end" ->
             \* close(m): a sender still blocked on the channel panics
@@ -294,7 +313,7 @@ MicroDp(st, k) ==
   ELSE {}
 
 (* --- the container --- *)
-StartRender(st) == [st EXCEPT !.ct.pc = "hm_gate", !.ct.cmd = "sync", !.ct.rows = <<>>, !.ct.popc = 0]
+StartRender(st) == [st EXCEPT !.ct.pc = "hm_gate", !.ct.cmd = "sync", !.ct.rows = <<>>, !.ct.prios = <<>>, !.ct.popc = 0]
 
 FlushNext(st) == [st EXCEPT !.ct.pc = "recv_pop", !.ct.b = NoBar]
 
@@ -309,7 +328,7 @@ MicroCt(st) ==
          IF T.then = "addreply" THEN {Return([st1 EXCEPT !.ct.pc = "idle"], T.c)}
          ELSE {FlushNext(st1)}
     [] T.pc = "hm_do" ->
-         LET r == Req(T.cmd, NoBar, FALSE, T.e) IN
+         LET r == IF T.cmd = "fix" THEN [Req("fix", T.b, T.lazy, 0) EXCEPT !.v = T.v] ELSE Req(T.cmd, NoBar, FALSE, T.e) IN
          IF st.hmclosed THEN {[st EXCEPT !.panic = "send on closed channel", !.ct.pc = "gone"]}
          ELSE IF CanSendNow(st) THEN {[Deliver(st, r) EXCEPT !.ct.pc = "hm_sent"]}
          ELSE {[st EXCEPT !.ct.pc = "hm_blocked", !.hmblk = Append(@, [req |-> r, from |-> 0])]}
@@ -325,7 +344,8 @@ MicroCt(st) ==
     [] T.pc = "recv_frame" ->
          LET b == T.b F == st.bar[b].frame IN
          IF ~F.has THEN {}
-         ELSE LET st1 == [st EXCEPT !.bar[b].frame.has = FALSE, !.ct.rows = Append(@, b)] IN
+         ELSE IF F.err THEN {[st EXCEPT !.bar[b].frame.has = FALSE, !.ct.pc = "drop_gate"]}
+         ELSE LET st1 == [st EXCEPT !.bar[b].frame.has = FALSE, !.ct.rows = Append(@, b), !.ct.prios = Append(@, st.bar[b].prio)] IN
               IF F.sd = 1 THEN {[st1 EXCEPT !.ct.pc = "cancel_gate"]}
               ELSE IF F.sd = 2 /\ Pop /\ ~F.nopop THEN {FlushNext([st1 EXCEPT !.ct.popc = @ + 1])}
               ELSE {PushThen(st1, b, FALSE, "flush")}
@@ -340,10 +360,17 @@ MicroCt(st) ==
          ELSE IF ~st.bar[b].rm THEN {PushThen(st1, b, FALSE, "flush")}
          ELSE {FlushNext(st1)}
     [] T.pc = "flush_do" ->
-         LET st1 == [st EXCEPT !.out = [rows |-> T.rows, text |-> st.cw, pop |-> T.popc],
+         LET st1 == [st EXCEPT !.out = [rows |-> T.rows, prios |-> T.prios, exempt |-> T.exempt, text |-> st.cw, pop |-> T.popc],
                                !.written = @ + st.cw, !.cw = 0] IN
          IF T.final THEN {[st1 EXCEPT !.ct.pc = "hm_gate", !.ct.cmd = "state"]}
          ELSE {[st1 EXCEPT !.ct.pc = "idle"]}
+    [] T.pc = "drop_do" ->
+         \* close(s.iterDrop); b.cancel(); return err  -- then serve(): go drain(); gate; p.cancel()
+         {[st EXCEPT !.iterDrop = TRUE, !.bar[T.b].ctx = TRUE, !.err = TRUE, !.drain = "run", !.ct.pc = "pcancel_gate"]}
+    [] T.pc = "pcancel_do" ->
+         {[st EXCEPT !.pctx = TRUE, !.bar = [b \in Bars |-> [@[b] EXCEPT !.ctx = TRUE]], !.ct.pc = "err_wait"]}
+    [] T.pc = "err_wait" /\ st.done ->
+         {[st EXCEPT !.debug = @ + 1, !.ct.pc = "hm_gate", !.ct.cmd = "end"]}
     [] T.pc = "io_do" ->
          {Return([st EXCEPT !.cw = @ + 1, !.accepted = @ + 1, !.ct.pc = "idle"], T.c)}
     [] OTHER -> {}
@@ -352,9 +379,14 @@ MicroCt(st) ==
 FinishRender(st, b) ==
   LET B == st.bar[b]
       term == Terminal(B)
-      st1 == [st EXCEPT !.bar[b].frame = [has |-> TRUE, sd |-> IF term THEN B.shutdown ELSE 0, rm |-> B.rm, nopop |-> B.nopop],
-                        !.bar[b].shutdown = IF term THEN (IF @ >= 3 THEN 3 ELSE @ + 1) ELSE @,
-                        !.bar[b].rd = "none"] IN
+      fails == Fault.at # 0 /\ Fault.b = b /\ B.fills + 1 = Fault.at
+      st1 == IF fails
+             THEN [st EXCEPT !.bar[b].frame = [has |-> TRUE, sd |-> 0, rm |-> FALSE, nopop |-> FALSE, err |-> TRUE],
+                             !.bar[b].fills = @ + 1, !.bar[b].rd = "none"]
+             ELSE [st EXCEPT !.bar[b].frame = [has |-> TRUE, sd |-> IF term THEN B.shutdown ELSE 0, rm |-> B.rm, nopop |-> B.nopop, err |-> FALSE],
+                             !.bar[b].shutdown = IF term THEN (IF @ >= 3 THEN 3 ELSE @ + 1) ELSE @,
+                             !.bar[b].fills = IF Fault.at # 0 /\ Fault.b = b /\ @ < Fault.at THEN @ + 1 ELSE @,
+                             !.bar[b].rd = "none"] IN
   IF B.host = "bar" THEN [st1 EXCEPT !.bar[b].host = "none", !.bar[b].pc = "idle"]
   ELSE [st1 EXCEPT !.bar[b].host = "none", !.bar[b].rg = "none"]
 
@@ -407,9 +439,11 @@ Rendezvous(st) ==
   (IF st.ct.pc = "idle" THEN
       {LET op == Op(c, st) b == st.nbars + 1
            B0 == [BarInit EXCEPT !.exists = TRUE, !.total = op.total, !.trig = (op.total > 0), !.rm = op.rm, !.nopop = op.nopop,
-                                 !.sync = op.sync, !.after = op.after, !.pc = "idle", !.prio = b, !.ctx = st.pctx]
+                                 !.sync = op.sync, !.after = op.after, !.pc = "idle", !.prio = b - 1, !.ctx = st.pctx]
            st1 == [st EXCEPT !.bar[b] = B0, !.nbars = b, !.bwg = @ + 1, !.ct.c = c]
-       IN IF op.after # NoBar
+       IN IF op.op = "prio"
+          THEN Return([st EXCEPT !.ct.pc = "hm_gate", !.ct.cmd = "fix", !.ct.b = op.b, !.ct.v = op.n, !.ct.lazy = op.drop], c)
+          ELSE IF op.after # NoBar
           THEN Return([st1 EXCEPT !.queue[op.after] = b], c)
           ELSE PushThen(st1, b, TRUE, "addreply")
          : c \in {x \in Clients : st.cl[x].st = "sendct"}}
@@ -424,7 +458,7 @@ Rendezvous(st) ==
   \cup (IF st.hm.pc = "iter_do" /\ st.hm.req.cmd = "iter" /\ st.ct.pc = "recv_iter"
         THEN LET b == st.hm.order[st.hm.i]
                  st1 == [st EXCEPT !.bar[b].rg = "gate"] IN
-             {IF st.hm.i = Len(st.hm.order) THEN [st1 EXCEPT !.hm.pc = "pop_loop", !.ct.iterClosed = TRUE]
+             {IF st.hm.i = Len(st.hm.order) THEN [st1 EXCEPT !.hm.pc = "pop_loop", !.ct.iterClosed = TRUE, !.ct.exempt = st.lazyDirty, !.lazyDirty = FALSE]
               ELSE [st1 EXCEPT !.hm.pc = "iter_gate", !.hm.i = @ + 1]}
         ELSE {})
   \* ... or to an early-refresh traversal, which may close its drop channel
@@ -438,9 +472,19 @@ Rendezvous(st) ==
                  ELSE [st1 EXCEPT !.hm.pc = "iter_gate", !.hm.i = @ + 1]}
              ELSE {}
         ELSE {})
-  \* ordered iteration
+  \* ordered iteration: delivery, or the drop branch (the bar in hand goes back into the heap)
   \cup (IF st.hm.pc = "pop_do" /\ st.ct.pc = "recv_pop"
         THEN {[st EXCEPT !.ct.pc = "recv_frame", !.ct.b = st.hm.req.b, !.hm.pc = "pop_loop"]} ELSE {})
+  \cup (IF st.hm.pc = "pop_do" /\ st.iterDrop
+        THEN {HmNext([st EXCEPT !.heap = HeapPush(st, st.heap, st.hm.req.b), !.bar[st.hm.req.b].index = 1, !.ct.popClosed = TRUE])}
+        ELSE {})
+  \* a distributor that sees the drop channel closed gives up (bars that have not sent yet stay blocked)
+  \cup {[st EXCEPT !.dist[k].pc = "gone"] : k \in {j \in DOMAIN st.dist : st.dist[j].pc = "collect" /\ st.iterDrop
+                                                                           /\ st.dist[j].i <= Len(st.dist[j].members)}}
+  \* after a render error a short-lived goroutine drains render requests until done is closed
+  \cup (IF st.drain = "run" /\ st.ls = "tick_send" THEN {[st EXCEPT !.ls = "idle"]} ELSE {})
+  \cup {[st EXCEPT !.er[k].pc = "pump_gate"] : k \in {j \in DOMAIN st.er : st.drain = "run" /\ st.er[j].pc = "pump_send"}}
+  \cup (IF st.drain = "run" /\ st.done THEN {[st EXCEPT !.drain = "gone"]} ELSE {})
 
   \* h_state reply
   \cup (IF st.hm.pc = "state_send" /\ st.ct.pc = "state_wait"
@@ -538,18 +582,27 @@ Where(st, b) ==
 NeverTwice == \A b \in Bars : s.bar[b].exists => Where(s, b) <= 1
 
 (* C05: every frame shows each bar at most once *)
+(* C06: rows are written in the order of the priorities the bars had when the frame was collected (the
+   ordered iteration hands them over highest value first, the container reverses them), except in the
+   frame that follows a lazy priority change *)
+SortedFrames == s.out.exempt \/ \A i, j \in DOMAIN s.out.prios : i < j => s.out.prios[i] >= s.out.prios[j]
+
 NoDupInFrame == \A i, j \in DOMAIN s.out.rows : i # j => s.out.rows[i] # s.out.rows[j]
 
 (* C13: accepted text is written at most once and never invented *)
 TextAtMostOnce == s.written + s.cw = s.accepted
 (* C13 / C03: when every call has returned, all accepted text has been written *)
-TextWritten == (AllDone(s) /\ s.panic = "none") => s.written = s.accepted
+TextWritten == (AllDone(s) /\ s.panic = "none" /\ ~s.err) => s.written = s.accepted
 
 (* C16: when every call has returned, no library goroutine is left that can never finish *)
 Quiescent == (AllDone(s) /\ s.panic = "none") =>
                /\ s.ct.pc = "gone" /\ s.ls = "gone"
                /\ \A b \in Bars : s.bar[b].exists => s.bar[b].pc = "gone" /\ s.bar[b].rd = "none"
-               /\ s.hmblk = <<>>
+               /\ s.hmblk = <<>> /\ s.drain # "run"
+
+(* C15: a render error is reported exactly once, and no frame follows it *)
+ErrorReportedOnce == (AllDone(s) /\ s.panic = "none") => s.debug = (IF s.err THEN 1 ELSE 0)
+NoRenderAfterError == s.err => s.ct.pc \in {"pcancel_gate", "pcancel_do", "err_wait", "hm_gate", "hm_do", "hm_blocked", "hm_sent", "gone"}
 
 (* C01 as liveness (fair scheduler): every call returns *)
 Termination == <>(AllDone(s) \/ s.panic # "none")
